@@ -22,9 +22,9 @@ _CTXRE = re.compile(r"ctx=(Store|Del)\(\)")
 LEVEL = 'model_checking'
 TECHNIQUE = ('bounded exhaustive enumeration of (program, node or slice, code form, repetition count) round trips and of all short '
              'docstring / comment texts over a 12-character alphabet on the real code, judged by CPython (structure, C01, literal values)')
-LEVEL_TEXT = ('every node and every slice of 51 programs is cut and put back / replaced by itself in all three code forms, 1 to 3 '
+LEVEL_TEXT = ('every node and every slice of 64 programs is cut and put back / replaced by itself in all three code forms, 1 to 3 '
               'times, and own_src() is re-parsed; every string of length <= 3 over 12 special characters (+48 crafted) is written '
-              'as docstring and line comment in 6 contexts and read back; structure, C01 and CPython literal values are compared')
+              'as docstring and line comment in 6 / 12 contexts and read back; structure, C01 and CPython literal values are compared')
 LEVEL_NOTE = ('trusted: CPython ast (structure modulo ctx and documented docstring re-indentation), ast.literal_eval semantics of the '
               'docstring constant; line comments are documented to be stripped and cannot contain newlines')
 RULE = ('enum: case = (program, node/slice, form, repetitions) or (context, text, accessor); non-trivial = distinct cases where the '
